@@ -484,3 +484,43 @@ def gen_int_spacing(rng, region):
     w, e, s, n = region
     sp_n, sp_e = float(rng.integers(1, max(2, int(n - s)))), float(rng.integers(1, max(2, int(e - w))))
     return (sp_n, sp_e) if rng.random() < 0.6 else float(min(sp_n, sp_e))
+
+
+def container_name(value):
+    name = type(value).__name__
+    return {"ndarray": "ndarray", "list": "list", "tuple": "tuple", "DataArray": "DataArray", "Series": "Series"}.get(
+        name, "Index" if "Index" in name else name)
+
+
+def scalar_dtype_name(value):
+    if isinstance(value, np.generic):
+        return str(value.dtype)
+    return type(value).__name__
+
+
+def gen_integer_end_points(rng):
+    """
+    Integer-valued profile end points in one of the spellings int16 / int32 / int64 array rows (elements are numpy integers),
+    Python ints or float32 scalars; the coordinate differences are large enough for their squares to overflow int16 / int32.
+    Returns (point1, point2, bounding box).
+    """
+    kind = str(rng.choice(["int16", "int32", "int32", "int64", "python_int", "float32"]))
+    if kind == "int16":
+        start = rng.integers(-15000, 0, 2)
+        diff = rng.integers(182, 15000, 2) * rng.choice([-1, 1], 2)
+        diff = np.where(start + diff < -32000, -diff, diff)
+    else:
+        start = rng.integers(-1_000_000, 1_000_000, 2)
+        diff = rng.integers(46341, 3_000_000, 2) * rng.choice([-1, 1], 2)
+    stop = start + diff
+    box = (float(min(start[0], stop[0])), float(max(start[0], stop[0])), float(min(start[1], stop[1])), float(max(start[1], stop[1])))
+    if kind in ("int16", "int32", "int64"):
+        table = np.array([start, stop], dtype=kind)
+        p1, p2 = table[0], table[1]
+        if rng.random() < 0.5:
+            p1, p2 = (table[0, 0], table[0, 1]), [table[1, 0], table[1, 1]]
+    elif kind == "python_int":
+        p1, p2 = (int(start[0]), int(start[1])), (int(stop[0]), int(stop[1]))
+    else:
+        p1, p2 = (np.float32(start[0]), np.float32(start[1])), (np.float32(stop[0]), np.float32(stop[1]))
+    return p1, p2, box
